@@ -139,10 +139,25 @@ func discText(name string) string {
 // nT time promotions and nV volume promotions and an integer base-denom price.
 func PricingText(name string, nT, nV int) string { return PricingTextIn(name, "stake", nT, nV) }
 
+// PricingTextDec is PricingText with the price written as a decimal number with 18 fractional digits
+// (name.price is its numerator at 10^-18): as long a number as the sender likes.
+func PricingTextDec(name string, nT, nV int) string {
+	decPrice = true
+	return PricingTextIn(name, "stake", nT, nV)
+}
+
+var decPrice bool
+
 // PricingTextIn is PricingText with the price in the given denomination.
 func PricingTextIn(name, denom string, nT, nV int) string {
 	var sb strings.Builder
-	fmt.Fprintf(&sb, `{"price":"%s%s"`, intOf(name+".price").String(), denom)
+	if decPrice {
+		decPrice = false
+		q, r := new(big.Int).QuoRem(intOf(name+".price"), new(big.Int).Exp(big.NewInt(10), big.NewInt(18), nil), new(big.Int))
+		fmt.Fprintf(&sb, `{"price":"%s.%018s%s"`, q.String(), r.String(), denom)
+	} else {
+		fmt.Fprintf(&sb, `{"price":"%s%s"`, intOf(name+".price").String(), denom)
+	}
 	if nT > 0 {
 		sb.WriteString(`,"promotions_by_time":[`)
 		for i := 0; i < nT; i++ {
